@@ -48,6 +48,14 @@ add('KF-idle-lock-holder-killed', ['C09'],
     {'hard_kill_of_lock_holder': True, 'lane': 'real', 'scenario': 'kill_idle'},
     'an idle worker killed by an unhandled signal (KILL, SEGV, ...) while it sits in the blocking receive holding the task queue\'s read lock: the POSIX semaphore is never released, every other worker blocks on it and no later job is served')
 
+add('KF-proxy-idset-alias', ['C20'], ['lock_ownership_lost_after_alias_drop'],
+    {'scenario': 'alias_drop_while_held'},
+    'dropping one of two proxies to the same referent discards the id from the per-thread id set (a set, not a count), the thread\'s connection is closed and the server thread owning a held RLock/Condition exits: release() then fails with "cannot release un-acquired lock"')
+add('KF-proxy-method-on-rebuilt-proxy', ['C20'],
+    ['proxy_returning_method_fails_on_rebuilt_proxy', 'server_object_leaked_without_proxy'],
+    {'scenario': 'proxy_returning_method_on_rebuilt_proxy'},
+    'a method registered with method_to_typeid called on an unpickled/child proxy (whose _manager is None) raises AttributeError in the #PROXY branch of _callmethod after the server already created the result, which then stays in the server without any proxy')
+
 fixed = json.load(open(here + '/known_fixed.json')) if os.path.exists(here + '/known_fixed.json') else []
 json.dump({'findings': F, 'fixed': fixed}, open(here + '/known_findings.json', 'w'), indent=1)
 print(len(F), 'finding keys;', len(fixed), 'fixed entries')
